@@ -51,6 +51,7 @@ type concState struct {
 	cur       map[int]map[uint32]*blockCommit // thread -> block -> entry being committed
 	holding   map[int]map[uint32]bool         // thread -> blocks whose write latch it took for a commit and has not released yet
 	latchStep map[int]map[uint32]int          // thread -> block -> scheduler step at which it was released to take the write latch
+	relay     *chunkCounter                   // C06: logger of the channel replica
 	snapBlock int                             // block the snapshotter thread is reading (-1 = none)
 	snaps     []*snapRec
 	// replicas
@@ -69,6 +70,16 @@ type concState struct {
 	committedBlocks map[*MTxn]map[uint32]bool
 	emitted         map[*MTxn]map[uint32]int
 	txnOf           map[int]*MTxn
+}
+
+// chunkCounter is a commit.Logger that counts commits per block.
+type chunkCounter struct {
+	perChunk, setup map[uint32]int
+}
+
+func (c *chunkCounter) Append(cm commit.Commit) error {
+	c.perChunk[uint32(cm.Chunk)]++
+	return nil
 }
 
 // SimRW is a SimFile that can also be read back (commit.Open needs a reader; a log opened
@@ -120,12 +131,6 @@ func runConc(cs *Case, or concOracles) (w *World) {
 	w.primary = w.newCollection(w.tap)
 	w.prefill(w.primary, cs.Cfg.Prefill)
 	prefillModel(w.model, cs.Cfg.Prefill)
-	if cs.Cfg.Params["ghost"] == 1 {
-		if err := w.primary.CreateColumn("ghost", column.ForInt64()); err != nil {
-			panic(err)
-		}
-		w.ghostLive = true
-	}
 
 	// setup transactions (stable rows with initial values) run on the scheduler goroutine
 	for i := range cs.Steps {
@@ -156,12 +161,19 @@ func runConc(cs *Case, or concOracles) (w *World) {
 
 	if or.replicas {
 		st.ch = make(commit.Channel, 1<<14)
-		st.replicaC = w.newCollection(nil)
+		// the replica has a change stream of its own (a relay in a replication chain): every
+		// replayed commit is a committed transaction on it and must be emitted once
+		st.relay = &chunkCounter{perChunk: map[uint32]int{}}
+		st.replicaC = w.newCollection(st.relay)
 		st.logFile = &SimRW{SimFile: NewSimFile()}
 		st.log = commit.Open(st.logFile)
 		w.tap.Sinks = []commit.Logger{st.ch, st.log}
 		// replicas start from the same populated state
 		w.copyState(st.replicaC)
+		st.relay.setup = map[uint32]int{}
+		for b, n := range st.relay.perChunk {
+			st.relay.setup[b] = n // what restoring the set-up state emitted
+		}
 	}
 	if or.log && st.log == nil {
 		st.logFile = &SimRW{SimFile: NewSimFile()}
@@ -561,6 +573,16 @@ func (w *World) quiescentChecks() {
 			w.fail(v)
 			return
 		}
+		emittedBy := map[uint32]int{}
+		for _, tc := range w.tap.Commits {
+			emittedBy[tc.Chunk]++
+		}
+		for b, n := range emittedBy {
+			if got := st.relay.perChunk[b] - st.relay.setup[b]; got != n {
+				w.fail(violation("replica-channel/relay-stream", "the primary emitted %d commits for block %d and all were replayed on the replica, whose own change stream carries %d for that block", n, b, got))
+				return
+			}
+		}
 		// replay the serialized log into a third collection
 		repL := w.newCollection(nil)
 		w.copyStateFromSetup(repL)
@@ -713,6 +735,14 @@ func (w *World) checkEmitted(mt *MTxn) {
 			continue
 		}
 		changed[o.Off>>14] = true
+	}
+	for b := range mt.ghostOnly {
+		if !changed[b] && mt.ghostAtApply[b] {
+			changed[b] = true // the only store of the block went into a column that existed at commit time
+			w.stats.probe("commit-of-a-block-changed-in-the-unmodelled-column-only")
+		} else if !changed[b] {
+			w.stats.probe("transaction-changed-nothing-its-column-was-dropped")
+		}
 	}
 	em := st.emitted[mt]
 	var blocks []uint32
